@@ -2237,21 +2237,37 @@ impl Archive {
 
         // Check if we have sector CRCs
         let mut sector_crcs = None;
+        let mut validate_crcs = false;
         if file_info.has_sector_crc() {
             // The first sector offset tells us where the data starts
             // If it's large enough to accommodate a CRC table, then CRCs are present
             let first_data_offset = sector_offsets[0] as usize;
+            let last_offset = sector_offsets[sector_count] as u64;
             let expected_crc_table_start = offset_table_size;
             let expected_crc_table_size = sector_count * 4;
 
-            if first_data_offset >= expected_crc_table_start + expected_crc_table_size {
+            // ArchiveBuilder puts an unencrypted table of ADLER32 values (one per
+            // uncompressed sector) directly behind the offset table and does not count it
+            // in the compressed size, so its sector data ends past compressed_size; files
+            // written by other tools end at or before it. That layout is validated.
+            validate_crcs = last_offset
+                == file_info.compressed_size + expected_crc_table_size as u64
+                || (first_data_offset == expected_crc_table_start + expected_crc_table_size
+                    && last_offset > file_info.compressed_size);
+
+            if validate_crcs
+                || first_data_offset >= expected_crc_table_start + expected_crc_table_size
+            {
                 // CRC table follows the offset table
+                self.reader.seek(SeekFrom::Start(
+                    file_info.file_pos + expected_crc_table_start as u64,
+                ))?;
                 let mut crc_data = vec![0u8; expected_crc_table_size];
                 self.reader.read_exact(&mut crc_data)?;
 
                 // CRC table may be encrypted if the file is encrypted
                 // According to MPQ format, CRC table uses the same key as the offset table but offset by sector count
-                if file_info.is_encrypted() {
+                if file_info.is_encrypted() && !validate_crcs {
                     let crc_key = key.wrapping_sub(1).wrapping_add(sector_count as u32);
                     decrypt_file_data(&mut crc_data, crc_key);
                 }
@@ -2280,6 +2296,26 @@ impl Archive {
             }
         }
 
+        // A sector of a file with checksums must match its ADLER32 (taken over the
+        // uncompressed sector); where the checksums cannot be used, such a file is not
+        // patched up with zeros either
+        let check_sector = |i: usize, data: &[u8]| -> Result<()> {
+            if let Some(ref crcs) = sector_crcs
+                && validate_crcs
+            {
+                let actual_crc = adler2::adler32_slice(data);
+                if actual_crc != crcs[i] {
+                    return Err(Error::ChecksumMismatch {
+                        file: file_info.filename.clone(),
+                        expected: crcs[i],
+                        actual: actual_crc,
+                    });
+                }
+            }
+            Ok(())
+        };
+        let no_recovery = file_info.has_sector_crc() && !validate_crcs;
+
         // Read and decompress each sector
         let mut decompressed_data = Vec::with_capacity(file_info.file_size as usize);
 
@@ -2302,7 +2338,12 @@ impl Archive {
                 // Skip this sector and continue with zeros
                 let remaining = file_info.file_size as usize - decompressed_data.len();
                 let expected_size = remaining.min(sector_size);
-                decompressed_data.extend(vec![0u8; expected_size]);
+                if no_recovery {
+                    return Err(Error::invalid_format("Invalid sector offsets"));
+                }
+                let zeros = vec![0u8; expected_size];
+                check_sector(i, &zeros)?;
+                decompressed_data.extend(zeros);
                 continue;
             }
 
@@ -2340,14 +2381,6 @@ impl Archive {
                 decrypt_file_data(sector_data, sector_key);
             }
 
-            // Validate CRC if present - MUST be done AFTER decryption but BEFORE decompression
-            // Skip CRC validation for now due to decryption key issues in some archives
-            if let Some(ref _crcs) = sector_crcs {
-                // Temporarily disabled CRC validation
-                // TODO: Fix CRC decryption key calculation for proper validation
-                log::trace!("Skipping CRC validation for sector {i}");
-            }
-
             // Decompress sector
             let decompressed_sector = if file_info.is_compressed()
                 && sector_size_compressed < expected_size
@@ -2359,6 +2392,9 @@ impl Archive {
                         match compression::decompress(sector_data, 0x08, expected_size) {
                             Ok(decompressed) => decompressed,
                             Err(e) => {
+                                if no_recovery {
+                                    return Err(e);
+                                }
                                 log::warn!(
                                     "Failed to decompress IMPLODE sector {i}: {e}. Using zeros."
                                 );
@@ -2376,12 +2412,18 @@ impl Archive {
                         ) {
                             Ok(decompressed) => decompressed,
                             Err(e) => {
+                                if no_recovery {
+                                    return Err(e);
+                                }
                                 log::warn!("Failed to decompress sector {i}: {e}. Using zeros.");
                                 vec![0u8; expected_size]
                             }
                         }
                     }
                 } else {
+                    if no_recovery {
+                        return Err(Error::invalid_format("Empty compressed sector"));
+                    }
                     log::warn!("Empty compressed sector data for sector {i}. Using zeros.");
                     vec![0u8; expected_size]
                 }
@@ -2390,6 +2432,7 @@ impl Archive {
                 sector_data[..expected_size.min(sector_data.len())].to_vec()
             };
 
+            check_sector(i, &decompressed_sector)?;
             decompressed_data.extend_from_slice(&decompressed_sector);
         }
 
